@@ -114,6 +114,11 @@ def _gen_all(rng, tier):
             for scheme in SCHEMES:
                 if scheme in SPLIT and kind == "rectangular":
                     continue                       # split-cross needs a triangulation mesh (no split_cross on rectangular)
+                if scheme in ("GaussianKernel", "ExponentialKernel") and geo["mesh_points"] is not None and len(geo["mesh_points"]) >= 30:
+                    # hub-and-rim sets are there for the neighbour tables; for the kernel schemes 36 rim points a fraction of the kernel
+                    # scale apart make the covariance ill-conditioned (cond ~ 1e9): its inverse is positive definite over the reals
+                    # (eigenvalues >= 0.5) but LAPACK's Cholesky can fail on the rounding -- floating point, not the statement
+                    continue
                 par = _params(rng, scheme)
                 if "scale" in par:
                     par["scale"] = par["scale"] * _spacing(geo)
@@ -217,7 +222,10 @@ def _basic_message(H, n, scheme):
     ev = np.linalg.eigvalsh(0.5 * (H + H.T))
     if ev.min() < -1e-10 * big:
         return "%s: not positive semi-definite: min eigenvalue %.6g (max|H| = %.3g)" % (scheme, ev.min(), big)
-    if scheme in STRICT_PD:
+    if scheme in STRICT_PD and cond <= 1e7:
+        # (beyond a condition number of 1e7 neither LAPACK's Cholesky nor the sign of the smallest computed eigenvalue says anything
+        # about the matrix over the reals: such instances -- e.g. duplicated or nearly duplicated vertices under a kernel scheme --
+        # are only held to the symmetric / positive semi-definite / size clauses above)
         try:
             np.linalg.cholesky(H)
         except np.linalg.LinAlgError:
